@@ -209,6 +209,54 @@ def strip_attrs(text, log):
     return STRIP_ATTR.sub(rep, text)
 
 
+
+RUST_KW = set("""as break const continue crate else enum extern false fn for if impl in let loop match mod move mut pub ref return
+self Self static struct super trait true type unsafe use where while async await dyn Some None Ok Err proof assert ghost""".split())
+
+
+def fuzzy_regex(anchor):
+    """identifier-wildcard form of a text anchor: every lower-case identifier that is not a keyword may have been renamed
+    (consistently: a repeated name must be renamed the same way); blanks match any run of white space"""
+    out, names, pos = [], {}, 0
+    for m in re.finditer(r'[A-Za-z_]\w*|\s+|.', anchor, re.S):
+        t = m.group(0)
+        if re.match(r'[A-Za-z_]\w*$', t):
+            if t in RUST_KW or t[0].isupper() or t.startswith('__'):
+                out.append(re.escape(t))
+            elif t in names:
+                out.append('(?P=%s)' % names[t])
+            else:
+                g = 'n%d' % len(names)
+                names[t] = g
+                out.append('(?P<%s>[A-Za-z_]\w*)' % g)
+        elif t.isspace():
+            out.append(r'\s*')
+        else:
+            out.append(re.escape(t))
+    return ''.join(out), names
+
+
+def fuzzy_locate(text, anchor):
+    """unique identifier-wildcard match of `anchor` in `text`: (start, length, {old name: new name}) or None"""
+    try:
+        rx, names = fuzzy_regex(anchor)
+        ms = list(re.finditer(rx, text))
+    except re.error:
+        return None
+    if len(ms) != 1 or not names:
+        return None
+    m = ms[0]
+    ren = {old: m.group(g) for old, g in names.items() if m.group(g) != old}
+    if any(v in RUST_KW for v in ren.values()):
+        return None
+    return m.start(), m.end() - m.start(), ren
+
+
+def apply_renames(txt, ren):
+    for old, new in ren.items():
+        txt = re.sub(r'(?<![\w.])%s\b' % re.escape(old), new, txt)
+    return txt
+
 GLOBAL_RULES = [
     # (id, regex, replacement, description)
     ('R1', re.compile(r'\.(map|map_err)\(\s*(([A-Z]\w*)::([A-Z]\w*))\s*\)'),
@@ -718,8 +766,29 @@ class Weaver:
                 pos = m.end() + len(ins) + 1
                 cnt += 1
             log.append(('ghost', 'after-each /%s/: %d sites instrumented' % (ae['rx'], cnt)))
+        # identifier renames discovered by fuzzy re-anchoring (a local was renamed in an anchor line): applied to every woven aid
+        renames = {}
+        fuzzy = []
+        for at in spec['ats']:
+            if not at.get('rx') and mt.text.count(at['anchor']) == 0:
+                fz = fuzzy_locate(mt.text, at['anchor'])
+                if fz:
+                    renames.update(fz[2])
+        msk0 = mask(mt.text)
+        loops0 = find_loops(msk0, 0, len(msk0))
+        for key_ in spec['loops']:
+            if not isinstance(key_, int):
+                kt0 = key_.partition('#')[0]
+                if not any(norm(kt0) in norm(mt.text[kw_:br_]) for kw_, br_, kd_ in loops0):
+                    for kw_, br_, kd_ in loops0:
+                        fz = fuzzy_locate(norm(mt.text[kw_:br_]), norm(kt0))
+                        if fz:
+                            renames.update(fz[2])
+        if renames:
+            log.append(('fuzzy', 'identifier renames applied to the woven proof aids: %s' % ', '.join('%s -> %s' % kv for kv in sorted(renames.items()))))
         # text anchors
         for at in spec['ats']:
+            at = dict(at, text=apply_renames(at['text'], renames))
             if at.get('rx'):
                 ms = list(re.finditer(at['anchor'], mt.text))
                 cnt = len(ms)
@@ -732,6 +801,11 @@ class Weaver:
                     for _ in range(at['nth'] - 1):
                         i = mt.text.find(at['anchor'], i + 1)
                     cnt = 1
+            if cnt != 1 and not at.get('rx'):
+                fz = fuzzy_locate(mt.text, at['anchor']) if cnt == 0 else None
+                if fz:
+                    i, alen, cnt = fz[0], fz[1], 1
+                    fuzzy.append('hint anchor %r re-anchored on %r' % (at['anchor'], norm(mt.text[i:i + alen])))
             if cnt != 1:
                 lost.append('hint anchor %r (matches %d times)' % (at['anchor'], cnt))
                 continue
@@ -751,6 +825,10 @@ class Weaver:
             else:
                 kt, _, kn = key_.partition('#')
                 hits = [i_ for i_, (kw_, br_, kd_) in enumerate(loops) if norm(kt) in norm(mt.text[kw_:br_])]
+                if not hits:
+                    hits = [i_ for i_, (kw_, br_, kd_) in enumerate(loops) if fuzzy_locate(norm(mt.text[kw_:br_]), norm(kt))]
+                    if hits:
+                        fuzzy.append('loop %r re-anchored on %r' % (key_, norm(mt.text[loops[hits[0]][0]:loops[hits[0]][1]])))
                 if kn and kn.isdigit() and len(hits) >= int(kn):
                     idx = hits[int(kn) - 1]
                 elif not kn and len(hits) == 1:
@@ -758,7 +836,7 @@ class Weaver:
             if idx is None:
                 lost.append('loop %r' % (key_,))
                 continue
-            chosen.append((idx, sec['text'], key_))
+            chosen.append((idx, apply_renames(sec['text'], renames), key_))
         for idx, txt, key_ in sorted(chosen, reverse=True):
             kw, brace, kind = loops[idx]
             n = idx + 1
@@ -792,7 +870,7 @@ class Weaver:
                 lost.append('closure %r' % (key_,))
                 continue
             for i_ in (idx if isinstance(idx, list) else [idx]):
-                chosen.append((i_, sec['text'], key_))
+                chosen.append((i_, apply_renames(sec['text'], renames), key_))
         for idx, txt0, key_ in sorted(chosen, reverse=True):
             a, b = cls[idx]
             txt = hold(txt0.strip(), 'closure:%s#%d' % (key_, idx + 1))
@@ -867,7 +945,7 @@ class Weaver:
                             sha256=S.sha(it['start'], it['end']), line_start=unit_start, line_end=w.lineno,
                             body_start=body_start, rules=log, props_safety=spec['props_safety'],
                             props_internal=spec['props_internal'], fn=it['name'], notes=spec['notes'],
-                            regions=sorted([(body_start + ln, pr, rx) for ln, pr, rx in regions]), lost_anchors=lost,
+                            regions=sorted([(body_start + ln, pr, rx) for ln, pr, rx in regions]), lost_anchors=lost, fuzzy_anchors=fuzzy, renames=renames,
                             aids=[(a_, body_start + l0_, body_start + l1_) for a_, l0_, l1_ in aid_spans],
                             dropped_aids=sorted(dropped)))
 
